@@ -141,6 +141,16 @@ def run_both(lines, jobs=14, per_chunk_timeout=60):
     # (on a busy machine the watchdog fires on healthy cases); only a repeated failure counts
     redo = [k for k, ((o, r), (mo, mr, sp)) in enumerate(zip(impl, model))
             if r in ("diverged", "skipped") and not (mr == "fuel" or mr.endswith(" fuel)"))]
-    for k in redo[:200]:
-        impl[k] = rerun_impl_slow(lines[k])
+    # in parallel batches; once a few cases have failed again the tree is shown broken and the remaining
+    # suspects are left uncompared ("skipped") rather than re-run one by one for hours
+    confirmed = 0
+    pos = 0
+    with concurrent.futures.ThreadPoolExecutor(max_workers=8) as ex:
+        while pos < len(redo) and confirmed < 3:
+            batch = redo[pos:pos + 8]; pos += len(batch)
+            for k, r in zip(batch, ex.map(lambda k: rerun_impl_slow(lines[k], 60), batch)):
+                impl[k] = r
+                if r[1] == "diverged": confirmed += 1
+    for k in redo[pos:]:
+        if impl[k][1] == "diverged": impl[k] = (impl[k][0], "skipped")
     return impl, model
